@@ -23,6 +23,13 @@ def play(case, ctx, keep_states=False, cap_factor=1):
     env = spec.env(case["cfg"])
     inst = ctx.guard(spec.instance, case, what=f"instance|{case['env']}")
     B = inst.batch_size[0]
+    if case.get("seed", 0) % 3 == 0 and case.get("src") == "gen":
+        # sequential reuse of one env object: a previous reset with another batch size must not leak into this episode
+        b0 = 1 + (case["seed"] // 3) % 4
+        if b0 != B:
+            torch.manual_seed(case["seed"])
+            ctx.guard(lambda: env.reset(env.generator(batch_size=[b0])), what=f"warmup_reset|{case['env']}")
+            ctx.event("warmup_reset_other_batch_size")
     rows = case["rows"]
     modes = [rows[b % len(rows)]["mode"] for b in range(B)]
     streams = [rows[b % len(rows)]["stream"] for b in range(B)]
